@@ -20,6 +20,7 @@ import Ymq.Lemmas.Gf2Gauss
 import Ymq.Lemmas.Gf2Sparse
 import Ymq.Lemmas.Gf2Lanczos
 import Ymq.Lemmas.Gf2Rank
+import Ymq.Lemmas.Gf2Rot
 
 namespace Ymq.C14
 open Ymq.Gf2
@@ -107,6 +108,14 @@ theorem qs_optimize_same_matrix (k : Nat) (cols : List (List Nat)) (y : List Nat
   have h := optMul_eq_spMul k cols y hk64 hk hn hwf
   exact ⟨h, fun xy' hp => by rw [optMul_perm _ _ _ hp, h]⟩
 
+/-- The block product `&Block * &Block` as the code computes it (rotation trick: `m[r] ^= x &
+y.rotate_right(r)` over the rows, `SmallMat::transpose`, row `r` rotated left by `r`) is the
+bilinear product `out[i] = xor of the y-words whose x-word has bit i`, for all blocks of 64-bit
+words of any length (both refuse blocks of different lengths). `optMul` uses the latter form. -/
+theorem block_product_rotation (x y : List Nat) (hy : ∀ w ∈ y, w < 2 ^ 64) :
+    blockDotRot x y = blockDot x y :=
+  blockDotRot_eq x y hy
+
 /-- With fewer than 64 rows `impl Mul<&Block> for &SparseMatOpt` panics (`out.0[i] = dense.0[i]`
 for `i < 64` indexes out of range), whatever the matrix: `kernel_lanczos` needs 64 rows. -/
 theorem optMul_few_rows (k : Nat) (cols : List (List Nat)) (y : List Nat) (hk : k < 64) :
@@ -168,6 +177,7 @@ example : (matZ 3 M34).rank = 3 := by
 example : lanczosFinal 64 [[0], [0]] [1, 1] = some [[true, true]] := by decide +kernel
 example : (64 : Nat) ≤ 2 ^ 32 ∧ ([[0], [0]] : List (List Nat)).length ≤ 2 ^ 32 ∧
     ∀ col ∈ ([[0], [0]] : List (List Nat)), ∀ a ∈ col, a < 64 := by decide
+example : blockDotRot [3, 1] [5, 2] = some ([7, 5] ++ List.replicate 62 0) := by decide +kernel
 example : optMul (qsOptimize 70 [[0, 65, 3, 3, 3], [64], []]) [1, 2, 4] = spMul 70 [[0, 65, 3, 3, 3], [64], []] [1, 2, 4] ∧
     optMul (qsOptimize 70 [[0, 65, 3, 3, 3], [64], []]) [1, 2, 4] ≠ none := by decide +kernel
 
